@@ -114,11 +114,9 @@ mutual
 def omitEmpty (pats : List (List String)) : GoVal → TPath → GoVal
   | .map kvs, p => .map (omitKVs pats kvs p)
   | .seq xs, p =>
-      -- `var c []any` + append: nothing kept ⇒ nil slice
-      match omitList pats xs p with
-      | [] => .nilseq
-      | ys => .seq ys
-  | .nilseq, _ => .nilseq
+      -- `c := make([]any, 0, len(v))` + append (since "fix: OmitEmpty keeps an empty sequence empty"): never a nil slice
+      .seq (omitList pats xs p)
+  | .nilseq, _ => .seq []
   | v, _ => v
 def omitKVs (pats : List (List String)) : List (String × GoVal) → TPath → List (String × GoVal)
   | [], _ => []
